@@ -249,7 +249,7 @@ def run_hypothesis(ctx, mod, examples):
         except BaseException as e:  # noqa: BLE001
             # Flaky / Unsatisfiable etc.  Our own records decide the verdict;
             # but an error with no recorded failure is a harness problem.
-            if not (set(ctx.failures) - before):
+            if not ctx.failures:
                 name = type(e).__name__
                 if name in ("Flaky", "FlakyFailure", "FlakyStrategyDefinition"):
                     raise HarnessError(f"hypothesis flaky: {e}") from e
@@ -299,6 +299,9 @@ def worker_main(argv):
             ctx.judge(case, from_hypothesis=False)
             ctx.core_evaluations += 1
         ctx.phase = "random"
+        # failures of the core already have their replay files: let the random
+        # phase search behind them instead of re-finding (and re-shrinking) them
+        ctx.passed_buckets |= set(ctx.failures)
         examples = mod.EXAMPLES[tier]
         scale = float(os.environ.get("CGV_SCALE", "1"))
         examples = max(1, int(examples * scale))
